@@ -33,7 +33,8 @@ class FaultAt:
         place.  shallow = D: k counts only lines executed in package frames at most D deep
         below the call's entry point (where objects record what they are set up for; a failure
         anywhere inside a deeper callee surfaces at exactly these lines), which makes the
-        fault points of a call few enough to be enumerated."""
+        fault points of a call few enough to be enumerated.  shallow = -1: k counts only lines
+        of __init__ methods (any depth): the points at which an object is half-built."""
         self.kbd = bool(k) and int(k) < 0  # negative ordinal: KeyboardInterrupt instead of MemoryError
         self.k = abs(int(k)) if k else 0
         self.n = 0
@@ -51,7 +52,14 @@ class FaultAt:
             self.n += 1
             w = "%s:%s" % (frame.f_code.co_filename[len(self.prefix) :], frame.f_code.co_name)
             c = self.per[w] = self.per.get(w, 0) + 1
-            if self.shallow and self.site is None:
+            if self.shallow < 0 and self.site is None:
+                # constructor mode: only lines of __init__ methods count (at any depth) - where
+                # objects that own C resources are half-built
+                if frame.f_code.co_name != "__init__":
+                    return self._local
+                self.nshallow += 1
+                hit = self.nshallow == self.k
+            elif self.shallow and self.site is None:
                 d, fr = 0, frame
                 while fr is not None:
                     if fr.f_code.co_filename.startswith(self.prefix):
